@@ -412,6 +412,23 @@ class World:
             init.append((s, q))
             pb = R.per(s, base)
             vol += (said(q) / pb) * perL if pb else 0.0
+        if init and rng.random() < 0.08:
+            # the same substance listed twice (added in two portions)
+            s_, q_ = rng.choice(init)
+            v_, b_ = R.parse_quantity(q_)
+            if v_ > 0:
+                q2 = spell(rng, v_ * rng.uniform(0.2, 1.5), b_)
+                init.append((s_, q2))
+                pb = R.per(s_, b_)
+                vol += (said(q2) / pb) * R.per(s_, 'L') if pb else 0.0
+                M.bucket('C19/ctor/substance_listed_twice')
+        if init and rng.random() < 0.06:
+            # an entry that holds nothing, first in order
+            zs = [x for x in self.subs if x not in [e_[0] for e_ in init]]
+            if zs:
+                z = rng.choice(zs)
+                init.insert(0, (z, '0 U' if z.is_enzyme() else rng.choice(['0 mg', '0 umol'])))
+                M.bucket('ctor/zero_entry_first')
         if capacity == 'auto':
             r = rng.random()
             if r < 0.4:
